@@ -1,5 +1,6 @@
 SPECIFICATION Spec
 CONSTANTS
-  Draws = 2
-  PlsDraws = 2
+  Draws = 1
+  PlsDraws = 1
+  FullCross = FALSE
 INVARIANT SpecOK
